@@ -113,7 +113,9 @@ class GlobSplitStore(Contract):
             if part.kind != 'tuple' or len(part.a['items']) != 6:
                 return z3.BoolVal(False)
             pat, is_magic, is_gs, is_gsl, donly, drive = part.a['items']
-            fields_ok = z3.And(pyvc.truthy(is_magic) == magic, pyvc.truthy(is_gs) == gs, pyvc.truthy(is_gsl) == gsl, pyvc.truthy(donly) == me.dir_only, z3.Not(pyvc.truthy(drive)),
+            # a run of consecutive globstar parts is one part; it is `***` (follows links) if any member of the run is
+            want_gsl = z3.Or(gsl, pyvc.truthy(U('attr.is_globstarlong', U('getitem', c.p['l'], Int(-1))))) if rep else gsl
+            fields_ok = z3.And(pyvc.truthy(is_magic) == magic, pyvc.truthy(is_gs) == gs, pyvc.truthy(is_gsl) == want_gsl, pyvc.truthy(donly) == me.dir_only, z3.Not(pyvc.truthy(drive)),
                                z3.If(magic, pyvc.eq(pat, U('C', Str(me.val), Flags(me.F))), pyvc.eq(pat, Str(me.val))))
             merged = z3.And(gs, nonempty_l, me.last_is_gs(c))
             where = merged if rep else z3.Not(merged)
